@@ -147,6 +147,74 @@ pub fn boundary(out: &mut crate::Out, tag: &str, seed: u64, cases: usize) {
             d.seal_next(None);
         }
     }
+    // directed: coins and payments at exact value boundaries (2^64 - 1, 2^64, 2^64 + 1, 2^120 - 1, 2^120), fees across 2^64
+    {
+        let vals: Vec<u128> = vec![(1u128 << 64) - 1, 1u128 << 64, (1u128 << 64) + 1, (1u128 << 120) - 1, 1u128 << 120, 1u128 << 100, 255, 256, 65535, 65536];
+        let mut outs = vec![];
+        for v in vals.iter() {
+            outs.push(mk_coin(a, *v, Denom::Mel, &[]));
+            outs.push(mk_coin(t, *v, Denom::Sym, &[]));
+        }
+        let f = d.faucet(outs, 0, 200);
+        let (base, ok) = d.w.batch(d.cur, &[f.clone()], 0, json!({"why": "faucet of boundary-valued coins"}));
+        if ok {
+            let save = d.cur;
+            d.cur = base;
+            let h = d.view().height;
+            for (i, o) in f.outputs.iter().enumerate() {
+                let c = (CoinID::new(f.hash_nosigs(), i as u8), CoinDataHeight { coin_data: o.clone(), height: h });
+                let mut ins = vec![c.clone()];
+                if o.denom != Denom::Mel {
+                    if let Some(fee) = swapdrive::mel_fee_coin(&d, &[c.0]) {
+                        ins.push(fee);
+                    }
+                }
+                for shape in 0..3 {
+                    let fixed = match shape {
+                        0 => vec![],
+                        1 => vec![mk_coin(t, 1, o.denom, &[])],
+                        _ => vec![mk_coin(t, o.value.0 / 2, o.denom, &[]), mk_coin(a, o.value.0 / 4, o.denom, &[])],
+                    };
+                    let tip = if shape == 2 { 1u128 << 40 } else { 0 };
+                    if let Some(tx) = d.build(TxKind::Normal, &ins, fixed, 1, vec![], tip) {
+                        let (nid, ok) = d.w.batch(d.cur, &[tx], 0, json!({"why": format!("boundary-valued coin {} {:?} spent, shape {}", o.value.0, o.denom, shape)}));
+                        if ok && shape == 2 {
+                            d.w.seal(nid, Some(ProposerAction { fee_multiplier_delta: 127, reward_dest: a }), json!({"why": "seal after boundary-valued payment"}));
+                        }
+                    }
+                }
+            }
+            d.cur = save;
+        }
+    }
+    // directed: more than 256 inputs in one transaction (the spender index of the covenant environment is one byte)
+    {
+        let i0 = d.wal.address(CovKind::Idx0);
+        let mut fs = vec![];
+        for part in 0..2u8 {
+            let outs: Vec<CoinData> = (0..140).map(|k| mk_coin(if part == 1 && k == 116 { i0 } else { t }, 1_000_000 + k as u128, Denom::Mel, &[])).collect();
+            fs.push(d.faucet(outs, 0, 210 + part));
+        }
+        let (base, ok) = d.w.batch(d.cur, &fs, 0, json!({"why": "two faucets of 140 coins"}));
+        if ok {
+            let save = d.cur;
+            d.cur = base;
+            let h = d.view().height;
+            let mut ins: Vec<(CoinID, CoinDataHeight)> = vec![];
+            for f in fs.iter() {
+                for (i, o) in f.outputs.iter().enumerate() {
+                    ins.push((CoinID::new(f.hash_nosigs(), i as u8), CoinDataHeight { coin_data: o.clone(), height: h }));
+                }
+            }
+            // the index-bound coin sits at position 256 (140 + 116), i.e. spender index 0 modulo 256
+            for n in [255usize, 256, 257, 280] {
+                if let Some(tx) = d.build(TxKind::Normal, &ins[..n], vec![], 1, vec![], 0) {
+                    d.w.batch(d.cur, &[tx], 0, json!({"why": format!("{} inputs in one transaction", n)}));
+                }
+            }
+            d.cur = save;
+        }
+    }
     // directed: degenerate transactions of every kind (nothing in, nothing or next to nothing out, no fee)
     {
         let pools = swapdrive::known_pools(&d);
